@@ -80,6 +80,10 @@ def run(ck):
                 fails.append(("no_memory_error", cl, dict(driver="run", input=l[:100000], report=r.stderr[:8000], clock_step_ns=step), "%s in %s (solver::run with %s ns of computation time per clock reading, under AddressSanitizer/UBSan)" % (cl[0], cl[1], step)))
             elif r.returncode < 0:
                 fails.append(("no_crash", ("signal", "run-long"), dict(driver="run", input=l[:100000], stderr=r.stderr[-3000:], clock_step_ns=step), "driver run died with signal %d at a clock step of %s ns" % (-r.returncode, step)))
+    # adhering daughter pairs of which one is removed while still coupled (the couplings of that iteration's contact phase refer
+    # to list positions that the erase shifts): every stored (cell index, node index) pair must be consumed before the erase
+    c08 = importlib.import_module("checks.c08")
+    asan_lines("solver", [c08.gen_case(rng, "c10p%d" % i, forced_roles=(r,))["line"] for i, r in enumerate(["pair0", "pair1", "pair0", "pair1"] * (1 if quick else 5))], wrap=True)
     asan_lines("init", [c13.gen_ini(rng)["line"] for _ in range(8 if quick else 80)] + [c13.gen_gate(rng)[0] for _ in range(10 if quick else 100)], wrap=True)
     asan_lines("divide", [c09.gen_div(rng, "c10d")["line"] for _ in range(5 if quick else 60)], wrap=True)
     # several cells dividing in one pass under 4 threads (the mothers finish in varying order): besides the sanitizer, every list
